@@ -13,7 +13,8 @@ API
                                 leg ranges, hands and all three constructors occur)
   geo(gid)                      Geo by id
   seed_geo(seed)                the one seed-generic geometry 'seedgeo<seed>' (IK / Jacobian clauses only, never in the FK lattice)
-  BASES, base_T(name, seed)     "BF" a far base (10 m from the world origin, reached by move; used by C11 only: small platforms
+  BASES, base_T(name, seed)     "BT" a steeply tilted base (63 deg off vertical, reached by move; FK/IK lattice of the quick geometries);
+                                "BF" a far base (10 m from the world origin, reached by move; used by C11 only: small platforms
                                 have cond(J^-1) in 1e3..1e4 there);  "I" identity (constructed there), "B1" one fixed generic pose (constructed at the
                                 identity, then sp.move(B1)), "BS" seed-generic pose (handed to the constructor)
   SPINS, spin_arg(name)         "s0" none, "s0.4" spinCustom(0.4), "s-60d" spinCustom(-60, True)
@@ -150,6 +151,8 @@ def base_T(name, seed=0):
     if name == "BS":
         w, p = palettes.well_conditioned_pose(seed, 91, max_angle=1.2, max_p=3.0)
         return se3.T_from(w, p)
+    if name == "BT":        # a steeply tilted base (about 63 degrees off vertical): row/column mix-ups of the base rotation show only here
+        return se3.T_from([1.0, 0.5, 0.2], [0.5, -1.0, 1.5])
     if name == "BF":        # far from the world origin: the inverse Jacobian of a small platform reaches cond 1e3..1e4 there
         return se3.T_from([0.2, -0.3, 0.4], [6.0, -8.0, 1.0])
     raise KeyError(name)
@@ -275,7 +278,7 @@ def build(g, base="I", spin="s0", seed=0):
             sp = construct(g, B if base == "BS" else np.eye(4))
         except Exception as e:
             raise BuildError("construct", e)
-        if base in ("B1", "BF"):
+        if base in ("B1", "BF", "BT"):
             try:
                 sp.move(tm(B.copy()))
             except Exception as e:
